@@ -1,31 +1,51 @@
 --------------------------- MODULE Trace_Concurrency ---------------------------
-(* Trace validation for C20: every replayed schedule is logged as  sched(kinds)  pass(p, gate)*  end(races, echo).
-   The passes must be steps of Concurrency (each process passes its own gates in handler order), the race
-   detector must have reported nothing and every response must be the one of its own request. *)
+(* Trace validation for C20: every replayed schedule is logged as
+     sched(kinds, codecs, bodies, serial)  pass(p, gate)*  end(races, seen, from)
+   The passes must be steps of Concurrency (each process passes its own gates in handler order; in the serial
+   mode only while every other process waits), arrivals happen unobserved in between, the race detector must have
+   reported nothing, the payload every handler read must be the one of its own request (seen[p] = p) and every
+   reply must have been computed from its own request (from[p] = p): seen/from are what the harness observed on
+   the real server - the id of the request whose payload showed up, -1 for bytes belonging to nobody - and must
+   equal what the specification computes. *)
 EXTENDS Concurrency, Json
 TraceLog == ndJsonDeserialize("trace.ndjson")
 VARIABLE l
 tvars == <<vars, l>>
 TraceInit == /\ TLCSet(1, 1) /\ l = 1
-             /\ kind = [p \in Procs |-> "ok"] /\ pos = [p \in Procs |-> 0] /\ hist = <<>> /\ lastErr = 0 /\ resp = [p \in Procs |-> 0]
+             /\ req = [p \in Procs |-> [kind |-> "ok", codec |-> "json", body |-> "object"]] /\ serial = FALSE
+             /\ pos = [p \in Procs |-> Len(Gates("ok"))] /\ at = [p \in Procs |-> "done"] /\ hist = <<>> /\ lastErr = 0 /\ pool = 0
+             /\ ref = [p \in Procs |-> "none"] /\ seen = [p \in Procs |-> 0] /\ resp = [p \in Procs |-> 0]
 Ev(e) == l <= Len(TraceLog) /\ TraceLog[l].ev = e
+Used(p) == p <= Len(TraceLog[l].kinds)
 TSched == /\ Ev("sched")
-          /\ kind' = [p \in Procs |-> IF p <= Len(TraceLog[l].kinds) THEN TraceLog[l].kinds[p] ELSE "ok"]
-          /\ pos' = [p \in Procs |-> IF p <= Len(TraceLog[l].kinds) THEN 0 ELSE Len(Gates("ok"))]     \* unused processes are out of the way
-          /\ hist' = <<>> /\ lastErr' = 0 /\ resp' = [p \in Procs |-> 0]
+          /\ \A p \in Procs : at[p] = "done"
+          /\ req' = [p \in Procs |-> IF Used(p) THEN [kind |-> TraceLog[l].kinds[p], codec |-> TraceLog[l].codecs[p], body |-> TraceLog[l].bodies[p]]
+                                     ELSE [kind |-> "ok", codec |-> "json", body |-> "object"]]
+          /\ \A p \in Procs : req'[p] \in Requests
+          /\ serial' = TraceLog[l].serial
+          /\ pos' = [p \in Procs |-> IF Used(p) THEN 0 ELSE Len(Gates("ok"))]     \* unused processes are out of the way
+          /\ at' = [p \in Procs |-> IF Used(p) THEN "run" ELSE "done"]
+          /\ hist' = <<>> /\ lastErr' = 0 /\ pool' = 0
+          /\ ref' = [p \in Procs |-> "none"] /\ seen' = [p \in Procs |-> 0] /\ resp' = [p \in Procs |-> 0]
           /\ l' = l + 1
 TPass == /\ Ev("pass")
          /\ LET p == TraceLog[l].p IN
             /\ Pass(p)
             /\ hist'[Len(hist')][2] = TraceLog[l].gate
          /\ l' = l + 1
+\* arrivals are not observed: any process inside a region may complete it between two logged events
+TArrive == /\ l <= Len(TraceLog) /\ TraceLog[l].ev \in {"pass", "end"}
+           /\ \E p \in Procs : Arrive(p)
+           /\ l' = l
 TEnd == /\ Ev("end")
-        /\ \A p \in Procs : pos[p] = Len(Gates(kind[p]))          \* every process went through its whole handler
-        /\ TraceLog[l].races = 0 /\ TraceLog[l].echo = TRUE
-        /\ NoConflict
+        /\ AllDone                                                  \* every process went through its whole handler
+        /\ TraceLog[l].races = 0
+        /\ \A p \in Procs : p <= Len(TraceLog[l].seen) => TraceLog[l].seen[p] = seen[p] /\ TraceLog[l].from[p] = resp[p]
+        /\ Echo
         /\ l' = l + 1 /\ UNCHANGED vars
-TraceNext == TSched \/ TPass \/ TEnd
+TraceNext == TSched \/ TPass \/ TArrive \/ TEnd
 TraceSpec == TraceInit /\ [][TraceNext]_tvars
 HWM == IF l > TLCGet(1) THEN TLCSet(1, l) ELSE TRUE
+\* NoConflict is an invariant of every behaviour the trace can be read as (checked while validating)
 TraceAccepted == PrintT(<<"HWM", TLCGet(1)>>) /\ TLCGet(1) = Len(TraceLog) + 1
 ===============================================================================
